@@ -198,6 +198,9 @@ def bv(val, ty):
     return z3.BitVecVal(val, WIDTH[ty])
 
 
+ENCODED = set()
+
+
 class Exec:
     def __init__(self, fns, consts, max_paths=4000):
         self.fns = fns
@@ -491,6 +494,7 @@ class Exec:
         """args: list of values for the parameters. Returns list of finished paths:
         dicts with cond (list of z3 bools), ret, panic (str or None)"""
         self.done = []
+        ENCODED.add(re.sub(r"<impl at [^>]*>", "<impl>", fn.name) + "(" + ", ".join(t for _k, t in fn.params) + ")")
         frame = {k: v for (k, _t), v in zip(fn.params, args)}
         self._exec(fn, frame, "bb0", [], 0, lambda fr, cond: self.done.append({"cond": cond, "ret": fr.get("_0"), "panic": None, "frame": fr}), set())
         return self.done
@@ -569,6 +573,7 @@ class Exec:
                     return self._exec(fn, frame, nxt, cond + ([] if z3.is_true(some) else [some]), depth, on_return, visiting)
                 if isinstance(r, tuple) and r and r[0] == "inline":
                     _tag, target, a = r
+                    ENCODED.add(re.sub(r"<impl at [^>]*>", "<impl>", target.name) + "(" + ", ".join(t for _k, t in target.params) + ")")
                     fr2 = {k: v for (k, _t), v in zip(target.params, a)}
 
                     def cont(cfr, ccond, dst=dst, nxt=nxt, frame=frame):
@@ -1015,6 +1020,7 @@ def run(prop, tier, seed, what):
                     out["narrowing_cast_census"] = census(fns)
         except Unsupported as e:
             rep.broken.append("%s/%s: not encodable: %s" % (prop, profile, e))
+    out["functions_encoded"] = sorted(ENCODED)
     out["queries"] = rep.queries
     out["violations"] = [{k: v[k] for k in ("query", "desc", "profile", "replay_rs") if k in v} for v in rep.violations]
     out["broken"] = rep.broken
